@@ -69,6 +69,9 @@ MemlimitEquivalence ==
 
 \* internal codes never escape
 DocumentedCodes == m.lastRet \in {"OK", "STREAM_END", "BUF_ERROR", "DATA_ERROR", "OPTIONS_ERROR", "MEMLIMIT_ERROR"}
+                                  \cup (IF Tell = "none" THEN {} ELSE {Tell})
+\* the Check notification comes exactly once per Stream, right after its Stream Header
+TellOncePerStream == m.tells = (IF Tell = "none" THEN 0 ELSE m.copy + (IF m.seq = "HDR" THEN 0 ELSE 1))
 
 \* freeing joins every thread
 EndJoinsAll == m.pc = "freed" => \A w \in W : t[w].pc = "none"
